@@ -249,3 +249,21 @@ def check(tier: str, seed: int) -> Result:
 def replay(case) -> List[Violation]:
     res = child(case["pipe"], case["way"], 150)
     return [Violation(s, m, c) for s, m, c in compare(case["pipe"], case["way"], res)]
+
+
+
+# ---------------------------------------------------------------------------------------------
+# environment grid (mc/envgrid.py): no residue per run in any process - also one without a stdout, with host logging at DEBUG, in a
+# thread, in a forked child ...
+
+def env_cases(tier: str):
+    return [{"pipe": p, "way": w, "n": 150} for p, w in [("plain-op", "reused-pipeline"), ("plain-op", "fresh-pipelines"), ("sweep-op", "fresh-pipelines"),
+                                                         ("context-processors", "reused-pipeline-traced"), ("plain-op", "cli-launch")]]
+
+
+def env_observe(case):
+    from mc import envgrid
+
+    envgrid.scratch()
+    res = run_way(case["pipe"], case["way"], case["n"])
+    return {"judged": sorted({sig for sig, _, _ in compare(case["pipe"], case["way"], res)})}
